@@ -3,6 +3,7 @@ EXTENDS DualStack
 CONSTANTS Durs, MaxAddrs
 Answers == [kind : {"ok"}, dur : Durs, n : 0..MaxAddrs] \cup [kind : {"err"}, dur : Durs, n : {0}]
 NoAnswer == [kind |-> "err", dur |-> 0, n |-> 0]
-MC_Scenarios == [host : {"domain"}, e4 : Answers, e6 : Answers]
-                \cup [host : {"none", "v4lit", "v6lit"}, e4 : {NoAnswer}, e6 : {NoAnswer}]
+\* lookup_ipv4_ipv6 takes a host name, not a URL: only the domain case exists for "join"
+MC_Scenarios == [api : {"all", "one4", "one6", "join"}, host : {"domain"}, e4 : Answers, e6 : Answers]
+                \cup [api : {"all", "one4", "one6"}, host : {"none", "v4lit", "v6lit"}, e4 : {NoAnswer}, e6 : {NoAnswer}]
 =============================================================================
